@@ -143,7 +143,7 @@ func (e *Env) Start() error {
 	for i := range e.Groups {
 		opts.NodeGroups = append(opts.NodeGroups, e.Groups[i].Opts)
 	}
-	e.Faults.ByIndex, e.Faults.ByNode, e.Faults.ByAPI, e.Faults.Ordinal = nil, nil, nil, nil
+	e.Faults.ByIndex, e.Faults.ByNode, e.Faults.ByAPI, e.Faults.Ordinal, e.Faults.ByNodeUpdate = nil, nil, nil, nil, nil
 	ctl, err := controller.VerifNewController(opts, e.K.PodLister(), e.K.NodeLister(), e.stop)
 	if err != nil {
 		return err
@@ -248,9 +248,9 @@ func (e *Env) RunScan(o ScanOpts) *ScanRecord {
 	rec.View = e.K.View
 	e.K.BeforeGet = o.BeforeGet
 
-	e.Faults.ByIndex, e.Faults.ByNode, e.Faults.ByAPI, e.Faults.Ordinal = nil, nil, nil, nil
+	e.Faults.ByIndex, e.Faults.ByNode, e.Faults.ByAPI, e.Faults.Ordinal, e.Faults.ByNodeUpdate = nil, nil, nil, nil, nil
 	if o.Faults != nil {
-		e.Faults.ByIndex, e.Faults.ByNode, e.Faults.ByAPI, e.Faults.Ordinal = o.Faults.ByIndex, o.Faults.ByNode, o.Faults.ByAPI, o.Faults.Ordinal
+		e.Faults.ByIndex, e.Faults.ByNode, e.Faults.ByAPI, e.Faults.Ordinal, e.Faults.ByNodeUpdate = o.Faults.ByIndex, o.Faults.ByNode, o.Faults.ByAPI, o.Faults.Ordinal, o.Faults.ByNodeUpdate
 	}
 	rec.Faults = o.Faults
 	e.Faults.Reset()
@@ -294,7 +294,7 @@ func (e *Env) RunScan(o ScanOpts) *ScanRecord {
 	rec.Events = e.J.Since(from)
 	rec.FaultHits = e.Faults.Hits
 	rec.FaultCalls = e.Faults.Calls()
-	e.Faults.ByIndex, e.Faults.ByNode, e.Faults.ByAPI, e.Faults.Ordinal = nil, nil, nil, nil
+	e.Faults.ByIndex, e.Faults.ByNode, e.Faults.ByAPI, e.Faults.Ordinal, e.Faults.ByNodeUpdate = nil, nil, nil, nil, nil
 	e.K.BeforeGet = nil
 	rec.Mutated = rec.View.Mutated()
 	rec.Cache = map[string]*ASGSnap{}
